@@ -42,7 +42,7 @@ def generate(prop, seed, tier):
     calls = [n for n in world["nodes"] if n["kind"] == "call"]
     if kind == "call" and calls:
         for n in rng.sample(calls, min(len(calls), rng.randrange(1, 3))):
-            faults["calls"][str(n["id"])] = dict(exc=rng.choice(["E1", "E2", "B1", "F1", "CallError", "NodeError"]))
+            faults["calls"][str(n["id"])] = dict(exc=rng.choice(["E1", "E2", "B1", "F1", "Z1", "CallError", "NodeError"]))
     elif kind in ("store", "mtime") and world["stores"]:
         names = sorted(world["stores"])
         op = "mtime" if kind == "mtime" else rng.choice(["read", "write", "write"])
